@@ -18,7 +18,11 @@ def choose_versions(run, exe, U, acc, rnd, nclass, nsingle):
     # rows and their equal-comparing spellings, so that every run holds classes around the range bounds
     fam = {e: [pre + ".".join(str(n) for n in ns) for pre in ("", "v")
                for ns in ([x] + [0] * k for x in (0, 1, 2, 9, 10) for k in range(4))] +
-              ["%d.%d%s" % (x, y, z) for x in (0, 1, 2) for y in (1, 2, 10) for z in ("", ".0", ".0.0")] for e in ECOS}
+              ["%d.%d%s" % (x, y, z) for x in (0, 1, 2) for y in (1, 2, 10) for z in ("", ".0", ".0.0")] +
+              # epochs and pre-releases around the same numbers (whatever spelling the ecosystem accepts)
+              [ep + v for ep in ("1!", "2!", "0:", "1:") for v in ("1.0", "1.0.3", "2.0", "0.9")] +
+              [v + q for v in ("1.0", "1.0.0", "2.0.0", "1.1") for q in ("-rc1", ".rc1", "rc1", "-alpha", "-alpha.1", "a1", "_rc1", "~rc1", "-SNAPSHOT", ".dev1", "-beta")]
+              for e in ECOS}
     fam = vlib.accept_filter(run, exe, fam, name="fam")
     famset = {e: set(fam[e]) for e in ECOS}
     for e in ECOS:
@@ -83,6 +87,14 @@ def check(run):
     for r in range(rounds):
         versions, part = choose_versions(run, exe, U, acc, rnd, 14 if quick else 25, 14 if quick else 30)
         cjobs = check_c02.gen_round(run, exe, {e: acc[e] for e in check_c02.ECOS}, rnd, r, 0)
+        # spelling variants of this round's range bounds (letter case, v prefix, build metadata, trailing zero part) join the
+        # members: equal-comparing and neighbouring versions exactly where the ranges have their edges
+        bnds = {}
+        for j in cjobs: bnds.setdefault(j["eco"], set()).update(j["bounds"])
+        var = vlib.accept_filter(run, exe, {e: [x for b in sorted(bnds.get(e, ())) for x in
+                                                (b.lower(), b.upper(), b.swapcase(), "v" + b, b.lstrip("vV"), b + "+b1", b + ".0", b, b.title())] for e in ECOS}, name="bvar%d" % r)
+        for e in ECOS:
+            versions[e] = list(dict.fromkeys(versions[e] + var[e]))
         by = {e: [] for e in ECOS}
         for j in cjobs:
             convex = len(j["groups"]) == 1 and all(c["op"] != "ne" for c in j["groups"][0])
